@@ -124,6 +124,11 @@ impl<'a> Elf<'a> {
     /// their virtual address minus the image base). Only what a loaded image offers: the note in a
     /// PT_NOTE segment, else a note / text section if the section table happens to be loaded.
     pub fn build_id_mem(&self) -> Option<Vec<u8>> {
+        // an object without program headers (a relocatable object) has no loaded form: whatever maps
+        // it maps the file as it is, and nothing in it can be found by address
+        if self.phs.is_empty() {
+            return None;
+        }
         let base = self.image_base();
         for p in &self.phs {
             if p.ty == 4 {
